@@ -214,6 +214,9 @@ def run(ctx, rep):
                    m.mod.relpath, kind="table")
             continue
         lfn, term = ld
+        if term[0] == "unknown":
+            rep.undecided("R19.2", "reader: tag %s" % tag.hex(), term[1])
+            continue
         if want[0] == "decode":
             ok = term[0] == "decode" and c04.term_eq(term[1], want[1]) and term[2] == want[2] and \
                 term[3] in ("strict", "surrogatepass")
